@@ -12,6 +12,11 @@ CLAIMS = {
    note='Trusts go/types+go/ssa, the enumerated infallible sinks (bytes.Buffer, strings.Builder, hash.Hash; bufio sticky errors), and that an error passed to any call is handled. Interface calls are the implementer\'s own obligation (all implementers in the output layer are entry points).',
    ref='DESIGN.md §2 C18'),
 }
+CLAIMS['C16'] = dict(
+   technique='AST extraction of the pruner tables + exhaustive finite-order evaluation; SSA provenance / dominance rules for where the pruner comes from and how its result is used',
+   text='The pruner touches keys only through comparisons, so its soundness is a fact about small tables in compiler/optimizer. T1 extracts rangePrunerPred, reverseComparator, literalComparison, compare() and the and/or composition of buildRangePruner from the AST of the current tree and checks exhaustively over a 5-point total order plus NULL-as-max that pruner(min,max) implies no key in [min,max] satisfies the predicate (all comparison ops, literal on either side, and/or with opaque or comparison operands). S1/D1/S2/S3/B1/N1 decide on SSA, for all paths: every KeyPruner is derived from the filter actually pushed into that scan and the source sort keys; the deleter never gets one; a pruner result skips only after Type()==TypeBool && Bool(); min/max argument order and metadata tags; only pool-key comparisons reach the table; both publishers of bounds swap for descending pools; lake comparators use nullsMax=true. Does not decide agreement between compare() and the filter\'s coercing comparison for mixed-type keys, nor that seek-index bounds are true bounds.',
+   note='Trusts the table extractor (fails closed on any unrecognised shape) and that a 5-point order + NULL suffices for comparison-only tables with at most three operands.',
+   ref='DESIGN.md §2 C16')
 NA = {}
 for i in range(1, 21):
     pid = 'C%02d' % i
